@@ -168,8 +168,8 @@ Definition sup_cause (s : state) (o : op) (a i : Z) : Prop :=
   match o with
   | OCreatePool app _ _ _ _ _ _ => app = a /\ i = cnt (last_pool s) app + 1
   | OCreateRanged app _ _ _ _ _ _ _ _ => app = a /\ i = cnt (last_pool s) app + 1
-  | ODepositAndFarm app _ pid _ _ _ _ _ _ => app = a /\ pid = i
-  | OUnfarmAndWithdraw app _ pid _ _ _ => app = a /\ pid = i
+  | ODepositAndFarm app _ pid _ _ _ _ _ => app = a /\ pid = i
+  | OUnfarmAndWithdraw app _ pid _ _ _ _ => app = a /\ pid = i
   | OEnd _ _ _ => cause_end s a i
   | _ => False
   end.
@@ -200,20 +200,24 @@ Proof.
   - apply Hne. apply (sw_cancel_order (SE s a i)) with (s := s) (app := app) (owner := owner) (pair := pair) (id := id); try se_leaf s a i. exact E.
   - apply Hne. apply (sw_cancel_all (SE s a i)) with (s := s) (app := app) (owner := owner) (pids := pids); try se_leaf s a i. exact E.
   - apply Hne. apply (sw_cancel_mm (SE s a i)) with (s := s) (app := app) (owner := owner) (pair := pair); try se_leaf s a i. exact E.
-  - unfold obind in E. destruct (deposit_req s app owner pid x y) as [[s1 r]| |] eqn:E1; try discriminate. injection E as <-.
-    destruct (deposit_req_sup _ _ _ _ _ _ _ _ E1) as (S & _). apply Hne. rewrite S. reflexivity.
-  - unfold obind in E. destruct (withdraw_req s app owner pid pc) as [[s1 r]| |] eqn:E1; try discriminate. injection E as <-.
+  - unfold obind in E. destruct (deposit_msg s app owner pid cs) as [[s1 r]| |] eqn:E1; try discriminate. injection E as <-.
+    destruct (deposit_msg_inv _ _ _ _ _ _ _ E1) as (x & y & E1').
+    destruct (deposit_req_sup _ _ _ _ _ _ _ _ E1') as (S & _). apply Hne. rewrite S. reflexivity.
+  - unfold obind in E. destruct (withdraw_msg s app owner pid dn pc) as [[s1 r]| |] eqn:E1; try discriminate. injection E as <-.
+    apply withdraw_msg_inv in E1.
     destruct (withdraw_req_sup _ _ _ _ _ _ _ E1) as (S & _). apply Hne. rewrite S. reflexivity.
-  - apply Hne. rewrite (pframe_sup _ _ (pf_farm _ _ _ _ _ _ _ E)). reflexivity.
-  - apply Hne. rewrite (pframe_sup _ _ (pf_unfarm _ _ _ _ _ _ E)). reflexivity.
-  - unfold deposit_and_farm, obind in E.
+  - apply farm_msg_inv in E. apply Hne. rewrite (pframe_sup _ _ (pf_farm _ _ _ _ _ _ _ E)). reflexivity.
+  - apply unfarm_msg_inv in E. apply Hne. rewrite (pframe_sup _ _ (pf_unfarm _ _ _ _ _ _ E)). reflexivity.
+  - destruct (deposit_and_farm_msg_inv _ _ _ _ _ _ _ _ _ _ E) as (x & y & E'). clear E. rename E' into E.
+    unfold deposit_and_farm, obind in E.
     destruct (deposit_req s app owner pid x y) as [[s1 r]| |] eqn:E1; try discriminate.
     destruct (exec_deposit s1 r ax ay pc) as [s2| |] eqn:E2; try discriminate.
     destruct (find _ (deps s2)); [|discriminate]. destruct (_ || _); [discriminate|].
     destruct (deposit_req_sup _ _ _ _ _ _ _ _ E1) as (S1 & Ra & Rp & _).
     rewrite (pframe_sup _ _ (pf_farm _ _ _ _ _ _ _ E)) in Hne. rewrite <- S1 in Hne.
     destruct (exec_deposit_sup _ _ _ _ _ _ E2 a i Hne). split; congruence.
-  - unfold unfarm_and_withdraw, obind in E. destruct (_ || _); [discriminate|].
+  - apply unfarm_and_withdraw_msg_inv in E.
+    unfold unfarm_and_withdraw, obind in E. destruct (_ || _); [discriminate|].
     destruct (unfarm s app owner pid pc) as [s1| |] eqn:E1; try discriminate.
     destruct (withdraw_req s1 app owner pid pc) as [[s2 r]| |] eqn:E2; try discriminate.
     destruct (withdraw_req_sup _ _ _ _ _ _ _ E2) as (S2 & Ra & Rp & _).
